@@ -322,6 +322,7 @@ ROBUST = {
     'bare_box': '#[typeshare]\npub struct S { pub v: Box }\n',
     'const_item': '#[typeshare]\npub const K: u32 = 1;\n',
     'unknown_nested_list': '#[typeshare]\npub struct S { #[typeshare(foo(bar))] pub a: u32 }\n',
+    'alias_param_named_like_type': '#[typeshare]\npub type A<T> = Vec<T>;\n#[typeshare]\npub type T<A> = Vec<A>;\n',
     'bare_use': 'use krate;\nuse other::Thing;\n#[typeshare]\npub struct S { pub a: u32 }\n',
 }
 ROBUST_LANGS = ['typescript', 'kotlin', 'swift', 'python', 'go', 'scala', 'scala-nopackage', 'typescript-folder', 'kotlin-folder']
@@ -358,7 +359,7 @@ def robust_case(exe, name, lang):
 
 
 def scenario_robust(exe, mode_arg, payload):
-    """C07 bound: 24 edge inputs (malformed nested typeshare lists, non-ASCII and underscore-only identifiers under rename_all, unparsable
+    """C07 bound: 25 edge inputs (malformed nested typeshare lists, non-ASCII and underscore-only identifiers under rename_all, unparsable
     text, unsupported types, deep cfg nesting, self / mutual references, empty tuple structs / variants, containers without arguments,
     unknown nested typeshare(...) lists, a bare `use krate;`, a const) x 9 language / output-mode configurations (incl. Scala with and
     without a package) + a tree of 150 annotated files, each run with a 15 s time limit: the tool must exit 0, or non-zero with a
